@@ -359,7 +359,8 @@ Section Reader.
 
   (* Reader.RefsFor(oid), drained *)
   Definition refs_for (r : reader) (oid : bytes) : res (list record) :=
-    if o_present (rd_obj r) then
+    if negb (o_present (rd_ref r)) then Ok []        (* no ref section: an empty table, or one with only a log *)
+    else if o_present (rd_obj r) then
       if Nat.ltb (length oid) (rd_idlen r) then Ok []
       else
         let want := firstn (rd_idlen r) oid in
